@@ -186,26 +186,35 @@ func genTailCase(t *rapid.T, traced bool) tailCase {
 // non-tail look-alikes: the self call is in a position that must NOT be a jump
 func genLookAlike(t *rapid.T) tailCase {
 	c := tailCase{Fn: "tf", Tail: false, Final: "id", Acc0: NInt(0)}
-	rec := NCall(NVar("tf"), NPrim("-", NVar("n"), NInt(1)), NPrim("+", NVar("acc"), NInt(1)))
+	// operands are chosen so that "jumped" and "called" give different values at every depth
+	rec := NCall(NVar("tf"), NPrim("-", NVar("n"), NInt(1)), NPrim("+", NVar("acc"), NInt(3)))
 	var step *Node
-	kind := rapid.SampledFrom([]string{"let-binding", "letseq-binding", "argument", "array-literal", "assert", "cond-predicate", "and-first-arm", "def-value", "for-body"}).Draw(t, "look")
+	kind := rapid.SampledFrom([]string{"let-binding", "letseq-binding", "argument", "array-literal", "assert", "cond-predicate", "and-first-arm", "and-middle-arm", "and-arm-inside-let", "non-final-in-begin", "def-value", "for-body"}).Draw(t, "look")
 	switch kind {
 	case "let-binding":
-		step = &Node{K: "let", Names: []string{"r"}, Kids: []*Node{rec, NPrim("+", NVar("r"), NVar("n"))}}
+		step = &Node{K: "let", Names: []string{"r"}, Kids: []*Node{rec, NPrim("+", NVar("r"), NPrim("*", NVar("n"), NInt(100)))}}
 	case "letseq-binding":
 		step = &Node{K: "letseq", Names: []string{"u", "r"}, Kids: []*Node{NInt(1), rec, NPrim("+", NVar("r"), NVar("u"))}}
 	case "argument":
 		step = NPrim("+", NInt(1), rec)
 	case "array-literal":
-		step = NPrim("aget", N("arr", rec, NVar("n")), NInt(0))
+		step = NPrim("+", NPrim("aget", N("arr", rec, NVar("n")), NInt(0)), NPrim("*", NVar("n"), NInt(100)))
 	case "assert":
-		step = N("begin", &Node{K: "assert", Kids: []*Node{NPrim(">=", rec, NInt(0))}}, NVar("n"))
+		step = N("begin", &Node{K: "assert", Kids: []*Node{NPrim(">=", rec, NInt(0))}}, NPrim("*", NVar("n"), NInt(100)))
 	case "cond-predicate":
-		step = N("cond", NPrim(">=", rec, NInt(0)), NVar("n"), NInt(-1))
+		step = N("cond", NPrim(">=", rec, NInt(0)), NPrim("*", NVar("n"), NInt(100)), NInt(-1))
 	case "and-first-arm":
-		step = N("and", rec, NVar("n"))
+		step = N(rapid.SampledFrom([]string{"and", "and", "or"}).Draw(t, "scop"), rec, NPrim("*", NVar("n"), NInt(100)))
+	case "and-middle-arm":
+		step = N("and", NBool(true), rec, NPrim("*", NVar("n"), NInt(100)))
+	case "and-arm-inside-let":
+		step = &Node{K: "let", Names: []string{"m"}, Kids: []*Node{NInt(1), N("or", NBool(false), rec, NVar("m"))}}
+		// (or false rec m): rec is truthy unless 0, so the value is rec's value: make the difference visible
+		step = NPrim("+", step, NPrim("*", NVar("n"), NInt(100)))
+	case "non-final-in-begin":
+		step = N("begin", rec, NPrim("*", NVar("n"), NInt(100)))
 	case "def-value":
-		step = N("begin", NDef("dv", rec), NPrim("+", NVar("dv"), NInt(1)))
+		step = N("begin", NDef("dv", rec), NPrim("+", NVar("dv"), NPrim("*", NVar("n"), NInt(100))))
 	case "for-body":
 		step = N("begin", NDef("fb", NInt(0)), &Node{K: "for", Kids: []*Node{NDef("i", NInt(0)), NPrim("<", NVar("i"), NInt(1)), NDef("i", NPrim("+", NVar("i"), NInt(1))), NSet("fb", rec)}}, NVar("fb"))
 	}
